@@ -217,7 +217,7 @@ func runC04(ctx *h.Ctx) int {
 			if !closedCheck(k, rp, res.Out, tag) {
 				return
 			}
-			if !vmCheck(k, rp, res.Out, vmCheckOpts{NStates: ctx.N(4, 12), Cands: g.Cands()}, tag) {
+			if !vmCheck(k, rp, res.Out, vmCheckOpts{NStates: ctx.N(4, 12), Cands: g.Cands(), Orig: prog, Optimize: opt}, tag) {
 				return
 			}
 		}
